@@ -192,6 +192,88 @@ def rate_test_config(ctx, rate, ncalls, seed):
                  f"Config.sample_rate() = {rate}: {store.n} of {ncalls} calls reached the store, acceptance interval [{lo}, {hi}] for p=1/{rate}", raise_=False)
 
 
+def rate_test_sessions(ctx, rate, nsessions, seed):
+    """many short tracing sessions, the global RNG seeded once before the first: the k-th call of a session (k = 1..4) is
+    traced in about one session in N - the sessions are not replays of one another"""
+    codes = (_wl.__code__, _wl2.__code__)
+    spec = ["RATESESSIONS", rate, nsessions, seed]
+    ctx.case(spec, True, ["rate-workload-many-short-sessions:%s" % rate])
+    lo, hi = interval(nsessions, 1.0 / rate)
+    for k in range(4):
+        random.seed(seed + k)
+        hits = 0
+        for _ in range(nsessions):
+            lg = CountBy()
+            with trace_calls(lg, 0, lambda c: c in codes, rate):
+                for i in range(k):
+                    _wl2(i)  # k earlier calls of the session, sampled like any other
+                _wl(k)
+            hits += lg.by.get("_wl", 0)
+        ctx.extra.setdefault("rate_intervals", [])
+        ctx.extra["rate_intervals"].append({"rate": rate, "calls": nsessions, "traced": hits, "accept": [lo, hi], "position_in_session": k + 1})
+        if not lo <= hits <= hi:
+            return ctx.fail("C18/traced-fraction-outside-binomial-bounds", spec,
+                            f"rate {rate}: call number {k + 1} of each of {nsessions} sessions was sampled {hits} times, acceptance interval [{lo}, {hi}]", raise_=False)
+
+
+def _wl2(x):
+    return x
+
+
+def rate_test_same_config(ctx, rates, ncalls, seed):
+    """ONE config object whose sample_rate() answers differently from block to block (a setting changed at run time):
+    every monkeytype.trace(config) block samples at the rate the config reports when the block starts"""
+    import monkeytype
+    from monkeytype.config import DefaultConfig
+    from monkeytype.db.base import CallTraceStore
+
+    class CountStore(CallTraceStore):
+        def __init__(self):
+            self.n = 0
+
+        def add(self, traces):
+            self.n += len(list(traces))
+
+        def filter(self, module, qualname_prefix=None, limit=2000):
+            return []
+
+    code = _wl.__code__
+    store = CountStore()
+    flt = lambda c: c is code  # noqa: E731
+
+    class Cfg(DefaultConfig):
+        rate = None
+
+        def trace_store(self):
+            return store
+
+        def code_filter(self):
+            return flt
+
+        def sample_rate(self):
+            return self.rate
+
+    cfg = Cfg()
+    random.seed(seed)
+    spec = ["RATESAMECFG", list(rates), ncalls, seed]
+    ctx.case(spec, True, ["rate-workload-one-config-object-changing-rate"])
+    for r in rates:
+        cfg.rate = r
+        before = store.n
+        with monkeytype.trace(cfg):
+            for i in range(ncalls):
+                _wl(i)
+        got = store.n - before
+        if r in (None, 1):
+            if got != ncalls:
+                return ctx.fail("C18/rate-unset-or-1-not-all-traced", spec, f"block with Config.sample_rate() = {r} (rates so far {list(rates)}): {got} of {ncalls} calls reached the store", raise_=False)
+            continue
+        lo, hi = interval(ncalls, 1.0 / r)
+        if not lo <= got <= hi:
+            return ctx.fail("C18/traced-fraction-outside-binomial-bounds", spec,
+                            f"block with Config.sample_rate() = {r} on a config object used for blocks with rates {list(rates)}: {got} of {ncalls} calls reached the store, interval [{lo}, {hi}]", raise_=False)
+
+
 def rate_test_nested(ctx, outer_rate, inner_rate, ncalls, seed):
     """a tracing context entered inside another one samples at ITS OWN rate and logs to ITS OWN logger"""
     outer, inner = Count(), Count()
@@ -391,6 +473,9 @@ def shard(ctx):
         if i % ctx.nshards == ctx.shard:
             rate_test(ctx, r, n if r != 100 else n, ctx.seed * 1000 + s)
             rate_test_config(ctx, r, n // 4, ctx.seed * 1000 + s + 3)
+            if r not in (None, 1):
+                rate_test_sessions(ctx, r, 3000 if q else 20000, ctx.seed * 1000 + s + 29)
+            rate_test_same_config(ctx, [RATES[(i + j) % len(RATES)] for j in range(3)], n // 8, ctx.seed * 1000 + s + 31)
             async_generators(ctx, r, 300 if q else 3000, ctx.seed * 1000 + s + 17)
             rate_test_nested(ctx, r, RATES[(i + 1) % len(RATES)], n // 8, ctx.seed * 1000 + s + 19)
             rate_test_nested(ctx, RATES[(i + 2) % len(RATES)], r, n // 8, ctx.seed * 1000 + s + 23)
@@ -406,6 +491,10 @@ def run(ctx):
 def replay(ctx, case):
     if case[0] == "RATE":
         return rate_test(ctx, case[1], case[2], case[3])
+    if case[0] == "RATESESSIONS":
+        return rate_test_sessions(ctx, case[1], case[2], case[3])
+    if case[0] == "RATESAMECFG":
+        return rate_test_same_config(ctx, case[1], case[2], case[3])
     if case[0] == "RATENESTED":
         return rate_test_nested(ctx, case[1], case[2], case[3], case[4])
     if case[0] == "ASYNCGEN":
